@@ -196,4 +196,28 @@ def wfRoot : Tree → Prop
   | .file .. => False
   | .dir _ cs => wfList cs
 
+/-! ## Several starts in one process
+
+A process can start a hook manager more than once on the same path (library users re-scan a module's
+hooks; the harness process runs thousands of starts). What one start could leave behind for the next is
+process state: the package-level variables mentioned by the scan and by `Init`. The extractor lists them
+(`Facts.c20ProcessState`); the model threads exactly that state — a value per listed variable — from
+start to start. The list is empty (`C20.discovery_stateless`), so nothing a start computes can depend on
+an earlier tree. -/
+
+/-- the process state: one slot per package-level variable the scan / Init mention -/
+abbrev ProcState := List (String × List Path)
+
+def procInit : ProcState := Facts.c20ProcessState.map (fun v => (v, []))
+
+/-- one start on the tree as it is on disk now: the scan and `Init`; no variable is written because none
+is mentioned, the state is handed on unchanged -/
+def startOnce (rootPath : Path) (σ : ProcState) (t : Tree) : ProcState × List Path × InitState :=
+  (σ, discover rootPath t, init rootPath t (outcomeAt rootPath t))
+
+/-- successive starts, each on the tree of its time -/
+def starts (rootPath : Path) : ProcState → List Tree → List (List Path × InitState)
+  | _, [] => []
+  | σ, t :: ts => let r := startOnce rootPath σ t; r.2 :: starts rootPath r.1 ts
+
 end ShellOp.Discovery
